@@ -231,7 +231,7 @@ structure Out where
   sleeps : List Int := []          -- requested sleeps in ns, in order
 deriving Repr
 
-/-- `Slot.Check`: `nowNs` is the virtual clock (a requested sleep advances it) -/
+/-- `Slot.Check`: `nowNs` is the virtual clock, a `uint64` of nanoseconds (a requested sleep advances it) -/
 def slotCheck (res : String) (args : List Val) (atts : List (String × Val)) (b : Int) :
     List Ctl → Int → List Int → List Ctl × Int × Out
   | [], now, sl => ([], now, { sleeps := sl })
@@ -254,7 +254,7 @@ def slotCheck (res : String) (args : List Val) (atts : List (String × Val)) (b 
       | (c', .wait ms) =>
         let ns := w (ms * 1000000)
         if ns > 0 then
-          let (rest', now', o) := slotCheck res args atts b rest (now + ns) (sl ++ [ns])
+          let (rest', now', o) := slotCheck res args atts b rest ((now + ns) % two64) (sl ++ [ns])
           (c' :: rest', now', o)
         else
           let (rest', now', o) := slotCheck res args atts b rest now sl
